@@ -48,6 +48,12 @@ def corpus():
         "sy|int:int:int:int,int:int:int:int,int:int:int:int|li 0 l 1 l 1;li 1 l 2 l 1;li 0 l 2 l 1;mu 0 l ap 9",
         # known finding: items handler registered only if the FIRST partner of the trait is a List trait
         "#hook|first-partner-not-a-list",
+        # the same inside the model (the first, cross-kind link raises but stays registered)
+        "sy|int:int:int:int,int:int:int:int,int:int:int:int|li 0 l 1 x 0;li 0 l 2 l 1;mu 0 l ap 1;mu 2 l ap 5",
+        # ... and after a removal that must also unregister the items handler
+        "sy|int:int:int:int,int:int:int:int,int:int:int:int|li 0 l 1 l 1;un 0 l 1 l 1;li 0 l 1 x 0;li 0 l 2 l 1;mu 0 l ap 1",
+        # stale items handler after the partner died: later links still propagate
+        "sy|int:int:int:int,int:int:int:int,int:int:int:int,int:int:int:int|li 0 l 1 l 0;ki 1;li 0 l 2 x 0;li 0 l 3 l 0;mu 0 l ap 1",
     ]
 
 
@@ -461,8 +467,23 @@ def _run(specs, cmds, objs, recs, swallowed, guard):
         ext = bool(ev_p) and isinstance(ev_p[0][0], slice)
         if ext:
             tags.add("ev-slice")
+        cross = any((x[1] in L.LISTS) != (y[1] in L.LISTS) for (x, y) in E if x in comp)
         for (a, b) in sorted(D):
-            if a not in comp or not uniform or a[0] not in after or b[0] not in after:
+            if a not in comp or a[0] not in after or b[0] not in after:
+                continue
+            if not uniform:
+                # the one divergence that is decidable without uniform validators: a mutual List-List link of
+                # equal idempotent kind, both lists equal before an in-place mutation of one of them, whose
+                # trait also has (or had registered, by a call that raised) a partner that is not a List trait
+                if (k == "mu" and cross and (b, a) in D and a < b and p in (a, b) and ev_p
+                        and _uniform(specs, {a, b}) and a[1] in L.LISTS
+                        and val(before, a) == val(before, b) and val(after, a) != val(after, b)
+                        and not calls(b if p == a else a, True)):
+                    tainted = True
+                    hits.append(_hit("sync-diverged:items-handler-not-registered", "mutual List link %s <-> %s: the "
+                                     "mutation of %s never reached the partner; the trait's first partner was not a "
+                                     "List trait" % (a, b, p), command=cmd, left=val(after, a), right=val(after, b),
+                                     links=sorted(E)))
                 continue
             mutual_link = (b, a) in D
             if mutual_link:
